@@ -530,7 +530,7 @@ impl Prop for C19 {
     }
     fn phases(&self, tier: Tier) -> Vec<PhaseSpec> {
         let n = tier.pick(30_000, 1_500_000);
-        vec![ph("Dual", n), ph("Dual2", n), ph("Number", n)]
+        vec![ph("Dual", n), ph("Dual2", n), ph("Number", n), ph("python-facing comparisons, abs and arithmetic methods", tier.pick(6_000, 300_000))]
     }
     fn required_classes(&self, _tier: Tier) -> Vec<String> {
         let mut v = vec![];
@@ -561,6 +561,11 @@ impl Prop for C19 {
                 v.push(format!("rem-near-whole-quotient:{}:{}", t, f));
             }
         }
+        for t in ["Dual", "Dual2"] {
+            for m in ["__eq__:equal-value", "__lt__:other-value", "__le__:equal-value", "__gt__:other-value", "__ge__:equal-value", "__abs__", "__neg__"] {
+                v.push(format!("py:{}:{}", t, m));
+            }
+        }
         v
     }
     fn min_evaluations(&self, tier: Tier) -> u64 {
@@ -574,12 +579,20 @@ impl Prop for C19 {
     }
     fn run_case(&mut self, ctx: &mut Ctx, phase: usize, idx: u64, rng: &mut Rng) {
         match phase {
+            3 => {
+                if idx % 2 == 0 {
+                    super::pylayer::dual_layer(ctx, "C19", rng);
+                } else {
+                    super::pylayer::dual2_layer(ctx, "C19", rng);
+                }
+                ctx.distinct(crate::util::hash_u64s(&[0x9e, idx]));
+            }
             0 => run_dual(ctx, rng, idx),
             1 => run_dual2(ctx, rng, idx),
             _ => run_number(ctx, rng, idx),
         }
         if idx < 3 {
-            ctx.sample(["Dual", "Dual2", "Number"][phase], || json!({"checks": ["12 comparison forms", "abs", "10 remainder forms", "sum vs fold", "4 identities", "is_zero"], "phase": phase, "idx": idx}));
+            ctx.sample(["Dual", "Dual2", "Number", "python-layer"][phase], || json!({"checks": ["12 comparison forms", "abs", "10 remainder forms", "sum vs fold", "4 identities", "is_zero"], "phase": phase, "idx": idx}));
         }
     }
 }
